@@ -32,6 +32,7 @@ def run(ctx):
         layout.check_layout(ctx, spec, fn, spec['decoders'][fn], rule='X3')
     import C07
     C07.chunk_count_selection(ctx, 'X3')
+    layout.loop_counts_exact(ctx, spec, 'X3', only=('asefile::parse::read_aseprite', 'asefile::parse::parse_frame'), floor=2)
     ns = common.error_discipline(ctx, load, 'X4')
     ctx.floor('fallible call sites in the loader cone', ns, 150)
     ctx.extra['load_cone_size'] = len(load)
